@@ -251,6 +251,27 @@ def new_as_boundary(reg, clsname, as_cls=None, fields=None):
     reg.ext_models["new:" + clsname] = h
 
 
+_TRACE_FN = ("bcalls(", "bcall_arg(", "bcall_recv(", "bcall_names(", "bcall_kwarg(", "bcall_index(", "last_bcall(", "n_calls(",
+             "call_arg(", "news(", "new_field(", "new_obj(", "passed(", "sent_type(", "sent_field(", "iter_bcall_arg(",
+             "iter_call_arg(", "call_result(", "input_calls(", "input_arg(")
+
+
+def caller_view(c):
+    """what a CALLER may assume of contract c: the clauses about the call trace are dropped, because at a call site the
+    trace functions would read the caller's trace (the callee's boundary calls are visible there only through `effects`).
+    The full contract is what the callee's own task proves; the view is a subset of its clauses, hence implied."""
+    import copy
+    v = copy.copy(c)
+
+    def keep(clause):
+        src = clause[1] if isinstance(clause, tuple) else clause
+        return not (isinstance(src, str) and any(f in src for f in _TRACE_FN))
+    v.ensures = [e for e in c.ensures if keep(e)]
+    v.ensures_raise = {k: [e for e in cl if keep(e)] for k, cl in c.ensures_raise.items()}
+    v.internal_ensures = []
+    return v
+
+
 def base_registry():
     reg = make_registry()
     install_trace_funcs(reg)
@@ -279,7 +300,7 @@ def base_registry():
 def regf():
     reg = base_registry()
     for c in CONTRACTS:
-        reg.contracts[c.target] = c
+        reg.contracts[c.target] = caller_view(c)
     return reg
 
 
@@ -632,7 +653,7 @@ def regf_wiring():
     reg = base_registry()
     register_classes(reg, [MGR, "wormhole/_boss.py", "wormhole/wormhole.py"])
     for c in CONTRACTS:
-        reg.contracts[c.target] = c
+        reg.contracts[c.target] = caller_view(c)
     for cls in ("Inbound", "Outbound", "OneShotObserver", "DilationStatus", "WormholeStatus", "DilatedWormhole"):
         new_as_boundary(reg, cls)
     new_as_boundary(reg, "Manager", fields={"_api": "opaque[DilatedWormhole]"})
